@@ -208,9 +208,18 @@ fn exec<K: Kind>(op: &WOp) -> String {
                 1 => Some(HexStringPrefix::Empty),
                 _ => Some(HexStringPrefix::WithVersion),
             };
-            match <K::H as FuzzyHashType>::from_str_bytes(&s, mode) {
+            let a = match <K::H as FuzzyHashType>::from_str_bytes(&s, mode) {
                 Ok(x) => format!("parse Ok {}", x),
                 Err(e) => format!("parse Err {e:?}"),
+            };
+            // the &str entry points, when the bytes are UTF-8
+            match core::str::from_utf8(&s) {
+                Ok(t) => {
+                    let b = <K::H as FuzzyHashType>::from_str_with(t, mode).map(|x| x.to_string());
+                    let c = <K::H as core::str::FromStr>::from_str(t).map(|x| x.to_string());
+                    format!("{a} | with={b:?} | fromstr={c:?}")
+                }
+                Err(_) => a,
             }
         }
         WOp::Binary { raw, len_delta, .. } => {
